@@ -136,7 +136,7 @@ var sigAlgProp = vh.Define("C01", "sigalg", func(c SigAlgCase, r *vh.R) {
 func TestSigAlg(t *testing.T) {
 	n := 0
 	fx := gen.Fixtures()
-	reps := vh.Scale(1200, 60000) // leading-zero r or s: about one signature in 128 is a short one
+	reps := vh.Scale(1200, 20000) // leading-zero r or s: about one signature in 128 is a short one
 	shard, shards := vh.Shard()
 	for i := range fx {
 		mine := i%shards == shard // a few fixtures per process ...
